@@ -89,7 +89,9 @@ func (b *c08Builder) Byte(name string, v byte) {
 	b.f = append(b.f, f)
 }
 
-var c08Names = []string{"", "..", "../x", "/abs", strings.Repeat("n", 4095), strings.Repeat("n", 4096), "*.o", "[", "a?", "+ x", "- x/", "!", "a\x00b", "./.", "x/"}
+var c08Names = []string{"", "..", "../x", "/abs", strings.Repeat("n", 4095), strings.Repeat("n", 4096), "*.o", "[", "a?", "+ x", "- x/", "!", "a\x00b", "./.", "x/",
+	// filter-rule shapes: slash-only and empty patterns, modifiers without pattern
+	"/", "- /", "+ /", "//", "- //", "- ", "+ ", "-", "+", "///", "- /x/", "/x", "- a//b", "- /../x", "-  x", "! x"}
 
 // LenBytes: int32 length followed by the bytes (file names with XMIT_LONG_NAME, filter rules, link targets).
 func (b *c08Builder) LenBytes(name string, v []byte) {
